@@ -7,45 +7,45 @@ use ommx::Evaluate;
 use std::collections::{BTreeSet, HashMap};
 
 static SAMPLES: std::sync::Mutex<Vec<String>> = std::sync::Mutex::new(Vec::new());
-fn note(f: impl FnOnce() -> String) { let mut g = SAMPLES.lock().unwrap(); if g.len() < 3 { let s = f(); g.push(s); } }
+pub fn note(f: impl FnOnce() -> String) { let mut g = SAMPLES.lock().unwrap(); if g.len() < 3 { let s = f(); g.push(s); } }
 pub fn samples() -> Vec<String> { SAMPLES.lock().unwrap().clone() }
 pub struct Outcome { pub cases: usize, pub distinct: usize, pub fail: Option<String> }
 
-fn dv(id: u64, kind: Kind, bound: Option<(f64, f64)>) -> DecisionVariable {
+pub fn dv(id: u64, kind: Kind, bound: Option<(f64, f64)>) -> DecisionVariable {
     let mut d = DecisionVariable::default();
     d.id = id;
     d.kind = kind as i32;
     d.bound = bound.map(|(l, u)| { let mut b = v1::Bound::default(); b.lower = l; b.upper = u; b });
     d
 }
-fn lin(terms: &[(u64, f64)], c: f64) -> Linear {
+pub fn lin(terms: &[(u64, f64)], c: f64) -> Linear {
     let mut l = Linear::default();
     l.terms = terms.iter().map(|&(id, k)| { let mut t = v1::linear::Term::default(); t.id = id; t.coefficient = k; t }).collect();
     l.constant = c;
     l
 }
-fn quad(entries: &[(u64, u64, f64)], l: Option<Linear>) -> Quadratic {
+pub fn quad(entries: &[(u64, u64, f64)], l: Option<Linear>) -> Quadratic {
     let mut q = Quadratic::default();
     for &(r, c, v) in entries { q.rows.push(r); q.columns.push(c); q.values.push(v); }
     q.linear = l;
     q
 }
-fn poly(terms: &[(&[u64], f64)]) -> Polynomial {
+pub fn poly(terms: &[(&[u64], f64)]) -> Polynomial {
     let mut p = Polynomial::default();
     p.terms = terms.iter().map(|(ids, c)| { let mut m = Monomial::default(); m.ids = ids.to_vec(); m.coefficient = *c; m }).collect();
     p
 }
-fn f_of(e: v1::function::Function) -> Function { let mut f = Function::default(); f.function = Some(e); f }
-fn con(id: u64, eq: Equality, f: Function) -> Constraint { let mut c = Constraint::default(); c.id = id; c.equality = eq as i32; c.function = Some(f); c }
-fn inst(dvs: Vec<DecisionVariable>, obj: Function, cs: Vec<Constraint>) -> Instance {
+pub fn f_of(e: v1::function::Function) -> Function { let mut f = Function::default(); f.function = Some(e); f }
+pub fn con(id: u64, eq: Equality, f: Function) -> Constraint { let mut c = Constraint::default(); c.id = id; c.equality = eq as i32; c.function = Some(f); c }
+pub fn inst(dvs: Vec<DecisionVariable>, obj: Function, cs: Vec<Constraint>) -> Instance {
     let mut i = Instance::default();
     i.decision_variables = dvs; i.objective = Some(obj); i.constraints = cs; i.sense = v1::instance::Sense::Minimize as i32;
     i
 }
-fn state(e: &[(u64, f64)]) -> State { e.iter().cloned().collect() }
+pub fn state(e: &[(u64, f64)]) -> State { e.iter().cloned().collect() }
 
 // independent reference value of a function message (plain sum over the wire representation)
-fn ref_val(f: &Function, s: &HashMap<u64, f64>) -> Option<f64> {
+pub fn ref_val(f: &Function, s: &HashMap<u64, f64>) -> Option<f64> {
     use v1::function::Function as F;
     let g = |id: &u64| s.get(id).copied();
     Some(match f.function.as_ref() {
@@ -62,7 +62,7 @@ fn ref_val(f: &Function, s: &HashMap<u64, f64>) -> Option<f64> {
         Some(_) => return None,
     })
 }
-fn ref_ids(f: &Function) -> BTreeSet<u64> {
+pub fn ref_ids(f: &Function) -> BTreeSet<u64> {
     use v1::function::Function as F;
     let mut s = BTreeSet::new();
     match f.function.as_ref() {
@@ -398,5 +398,7 @@ pub fn c08() -> Outcome {
 }
 
 pub fn run(prop: &str) -> Option<Outcome> {
-    Some(match prop { "C01" => c01(), "C03" => c03(), "C05" => c05(), "C08" => c08(), "C12" => c12(), "C14" => c14(), _ => return None })
+    Some(match prop { "C01" => c01(), "C03" => c03(), "C05" => c05(), "C08" => c08(), "C12" => c12(), "C14" => c14(),
+        "C04" => crate::bounded2::c04(), "C09" => crate::bounded2::c09(), "C10" => crate::bounded2::c10(), "C11" => crate::bounded2::c11(),
+        "C13" => crate::bounded2::c13(), "C15" => crate::bounded2::c15(), "C16" => crate::bounded2::c16(), _ => return None })
 }
